@@ -7745,15 +7745,15 @@ func (*InclusiveRangeType) IsStorable(_ map[*Member]bool) bool {
 }
 
 func (t *InclusiveRangeType) IsExportable(results map[*Member]bool) bool {
-	return t.MemberType.IsExportable(results)
+	return t.MemberType != nil && t.MemberType.IsExportable(results)
 }
 
 func (t *InclusiveRangeType) IsImportable(results map[*Member]bool) bool {
-	return t.MemberType.IsImportable(results)
+	return t.MemberType != nil && t.MemberType.IsImportable(results)
 }
 
 func (t *InclusiveRangeType) IsEquatable() bool {
-	return t.MemberType.IsEquatable()
+	return t.MemberType != nil && t.MemberType.IsEquatable()
 }
 
 func (*InclusiveRangeType) IsComparable() bool {
@@ -7915,6 +7915,12 @@ func (t *InclusiveRangeType) GetMembers() map[string]MemberResolver {
 		return *cachedMembers
 	}
 
+	// The type might not be instantiated
+	memberType := t.MemberType
+	if memberType == nil {
+		memberType = InvalidType
+	}
+
 	// Compute members and cache them
 	computedMembers := withBuiltinMembers(
 		t,
@@ -7931,7 +7937,7 @@ func (t *InclusiveRangeType) GetMembers() map[string]MemberResolver {
 						memoryGauge,
 						t,
 						identifier,
-						t.MemberType,
+						memberType,
 						inclusiveRangeTypeStartFieldDocString,
 					)
 				},
@@ -7948,7 +7954,7 @@ func (t *InclusiveRangeType) GetMembers() map[string]MemberResolver {
 						memoryGauge,
 						t,
 						identifier,
-						t.MemberType,
+						memberType,
 						inclusiveRangeTypeEndFieldDocString,
 					)
 				},
@@ -7965,7 +7971,7 @@ func (t *InclusiveRangeType) GetMembers() map[string]MemberResolver {
 						memoryGauge,
 						t,
 						identifier,
-						t.MemberType,
+						memberType,
 						inclusiveRangeTypeStepFieldDocString,
 					)
 				},
@@ -7978,13 +7984,11 @@ func (t *InclusiveRangeType) GetMembers() map[string]MemberResolver {
 					targetRange ast.HasPosition,
 					report func(error),
 				) *Member {
-					elementType := t.MemberType
-
 					return NewPublicFunctionMember(
 						memoryGauge,
 						t,
 						identifier,
-						InclusiveRangeContainsFunctionType(elementType),
+						InclusiveRangeContainsFunctionType(memberType),
 						inclusiveRangeTypeContainsFunctionDocString,
 					)
 				},
@@ -8021,6 +8025,11 @@ func (t *InclusiveRangeType) Unify(
 }
 
 func (t *InclusiveRangeType) Resolve(typeArguments *TypeParameterTypeOrderedMap) Type {
+	// The type might not be instantiated
+	if t.MemberType == nil {
+		return t
+	}
+
 	memberType := t.MemberType.Resolve(typeArguments)
 	if memberType == nil {
 		return nil
